@@ -12,7 +12,8 @@ CONSTANTS Comp = "pairs"
   NBuf = 2
   Gaps <- G_none
   Strict = TRUE
-  D = 4
+  Busy = FALSE
+  D = 5
 INIT Init
 NEXT Next
 VIEW viewE
